@@ -7,6 +7,7 @@ import (
 	"fmt"
 	"io"
 	"math"
+	"strconv"
 	"strings"
 	"testing/iotest"
 	"time"
@@ -584,13 +585,20 @@ func (h *c16run) opMsgBlock() {
 	}
 }
 
+// c16two32 is 2^32 on 64-bit builds (an index that truncates to 0 in 32
+// bits) and 1 where an int has 32 bits.
+var c16two32 = func() int {
+	sh := uint(32)
+	return 1 << (sh & uint(strconv.IntSize-1))
+}()
+
 // pickIndex draws an index from {-1, 0..n-1, n, n+1, MaxInt, MinInt, ...}.
 func (h *c16run) pickIndex(r *vf.Rand, used *[]int) int {
 	n := h.e.n
 	k := r.Intn(100)
 	switch {
 	case n == 0 || k < 22:
-		oor := []int{-1, n, n + 1, math.MaxInt, math.MinInt, -n - 1, math.MaxInt32, math.MinInt32, 1 << 32, 1<<32 + n - 1, -2}
+		oor := []int{-1, n, n + 1, math.MaxInt, math.MinInt, -n - 1, math.MaxInt32, math.MinInt32, c16two32, c16two32 + n - 1, -2}
 		return oor[r.Intn(len(oor))]
 	case k < 45 && len(*used) > 0:
 		return (*used)[r.Intn(len(*used))]
